@@ -282,6 +282,15 @@ func regionSites(c *Check, region map[*ssa.Function]bool) []ssa.CallInstruction 
 // return, or through a return that hands on the result of a first-party helper which itself can
 // (`return combine(collect(ch))`), to depth 3.
 func nilReturnReachable(fn *ssa.Function, q engine.PathQuery, depth int) (bool, ssa.Instruction) {
+	return nilReturnReachableAfter(fn, nil, q, depth)
+}
+
+// nilReturnReachableFrom: the same question asked for the paths that start right after `from`.
+func nilReturnReachableFrom(fn *ssa.Function, from ssa.Instruction, q engine.PathQuery) (bool, ssa.Instruction) {
+	return nilReturnReachableAfter(fn, from, q, 0)
+}
+
+func nilReturnReachableAfter(fn *ssa.Function, from ssa.Instruction, q engine.PathQuery, depth int) (bool, ssa.Instruction) {
 	idx := engine.ErrResultIndex(fn.Signature)
 	if idx < 0 {
 		return false, nil
@@ -331,7 +340,7 @@ func nilReturnReachable(fn *ssa.Function, q engine.PathQuery, depth int) (bool, 
 			return a.Op == "nonnil" && (a.V == rv || sameVar(a.V, rv) || (spilled != nil && (a.V == spilled || sameVar(a.V, spilled))))
 		})
 		rq.CutEdge = func(b *ssa.BasicBlock, i int) bool { return (q.CutEdge != nil && q.CutEdge(b, i)) || behind(b, i) }
-		if ok, _ := engine.PathExists(fn, nil, engine.IsInstr(r), rq); !ok {
+		if ok, _ := engine.PathExists(fn, from, engine.IsInstr(r), rq); !ok {
 			continue
 		}
 		if mayNil {
